@@ -22,4 +22,10 @@ pub mod c06;
 #[cfg(kani)]
 pub mod c08;
 #[cfg(kani)]
+pub mod c10;
+#[cfg(kani)]
+pub mod c20;
+#[cfg(kani)]
+pub mod c05;
+#[cfg(kani)]
 mod setup;
